@@ -66,6 +66,15 @@ func allowAllFilter() seccomp.Filter {
 	return allowFilter
 }
 
+// fastBan soft-bans at once: the tracer cycles through wait4 / register read / path read / resume as fast
+// as it can, so a cancellation's SIGKILL lands in every phase of that loop
+type fastBan struct{}
+
+func (fastBan) CheckRead(string) ptracer.TraceAction    { return ptracer.TraceBan }
+func (fastBan) CheckWrite(string) ptracer.TraceAction   { return ptracer.TraceBan }
+func (fastBan) CheckStat(string) ptracer.TraceAction    { return ptracer.TraceBan }
+func (fastBan) CheckSyscall(string) ptracer.TraceAction { return ptracer.TraceBan }
+
 // slowBan soft-bans every path syscall it is asked about, after a short pause
 type slowBan struct{}
 
@@ -167,7 +176,7 @@ func c11One(probe, root string, c c11Case) c11Obs {
 			Limit: runner.Limit{TimeLimit: 200 * time.Second, MemoryLimit: runner.Size(2 << 30)},
 		}
 		run = func(ctx context.Context) opResult { return classify(r.Run(ctx)) }
-	case "ptrace-ban":
+	case "ptrace-ban", "ptrace-trap":
 		// every mkdir of the program traps; the handler takes its time and answers with a soft ban, so a
 		// cancellation often finds the tracee in a seccomp stop with the handler still deciding
 		dir, err := os.MkdirTemp("", "verif-c11-ban-")
@@ -180,9 +189,13 @@ func c11One(probe, root string, c c11Case) c11Obs {
 		if c.Prog == "quick" {
 			prog = []string{probe, nonce, "mkdirs:" + dir + ":4", "exit:7"}
 		}
+		var h ptrace.Handler = slowBan{}
+		if c.Runner == "ptrace-trap" {
+			h = fastBan{}
+		}
 		r := &ptrace.Runner{
 			Args: prog, Env: []string{"PATH=/usr/bin:/bin"}, Files: manyFiles(c.NFiles),
-			Seccomp: banFilter(), Handler: slowBan{},
+			Seccomp: banFilter(), Handler: h,
 			Limit: runner.Limit{TimeLimit: 200 * time.Second, MemoryLimit: runner.Size(2 << 30)},
 		}
 		run = func(ctx context.Context) opResult { return classify(r.Run(ctx)) }
